@@ -12,12 +12,21 @@
    overlapping or edge-adjacent polygons of a collection is not modelled here).
 
    `relate_spec` is the definition by maxima, `relate_oracle` accumulates the same events the way IntersectionMatrix does
-   (C01/Pred.final), evaluated with the fast locator; OracleProofs: the two coincide. *)
+   (setAtLeast; the same function as C01/Pred.final), evaluated with the fast locator; OracleProofs: the two coincide.
+   This file depends on hand-written library files only (nothing generated from the C++, no proof file), so that the oracle
+   still builds and runs when a generated unit or a proof about one breaks; what needs the generated predicate classes is in
+   OraclePred.v. *)
 From Coq Require Import ZArith List Bool.
 From GeosV.Lib Require Import GeomDefs LocateDefs ValidDefs GenPreludePred IM.
-From GeosV.C01 Require Import ArrangementDefs Pred.
+From GeosV.C01 Require Import ArrangementDefs.
 Import ListNotations.
 Local Open Scope Z_scope.
+
+(* an event: (location in A, location in B, dimension); IntersectionMatrix::setAtLeast; the empty matrix with EE = 2 *)
+Definition ev := (Z * Z * Z)%type.
+Definition osal (m : im) (e : ev) : im := let '(la, lb, d) := e in if m_get_2 m la lb <? d then m_set_3 m la lb d else m.
+Definition om0 : im := [-1; -1; -1; -1; -1; -1; -1; -1; 2].
+Definition ofinal (evs : list ev) : im := fold_left osal evs om0.
 
 Definition loc_code (l : location) : Z := match l with Interior => 0 | Boundary => 1 | Exterior => 2 end.
 
@@ -51,7 +60,7 @@ Definition relate_spec (r : bnrule) (A B : geom) : matrix := matrix_of (oracle_e
 
 (* ---- evaluation ---- *)
 Definition oracle_events (r : bnrule) (A B : geom) : list ev := events_with loc_dim_fast r A B.
-Definition relate_oracle (r : bnrule) (A B : geom) : matrix := final (oracle_events r A B).
+Definition relate_oracle (r : bnrule) (A B : geom) : matrix := ofinal (oracle_events r A B).
 Definition side_ok (r : bnrule) (A B : geom) : bool := side_ok_with loc_dim_fast r A B.
 
 (* ---- nodes whose coordinates are not binary64 numbers ----
@@ -74,7 +83,7 @@ Definition fragile_nodes (A B : geom) : list hpt :=
 (* matrix and certificate in one pass over the witnesses (OracleProofs.oracle_run_eq: = (relate_oracle, side_ok)) *)
 Definition oracle_run (r : bnrule) (A B : geom) : matrix * bool :=
   let cs := map (fun w => (event_of loc_dim_fast r A B w, witness_counts loc_dim_fast r A B w)) (witnesses A B) in
-  (final (map fst (filter snd cs)), forallb snd cs).
+  (ofinal (map fst (filter snd cs)), forallb snd cs).
 
 (* ---- scope: valid, and all polygons of the geometry taken together form a valid MultiPolygon (interiors disjoint, boundaries
    meeting in points only): then the component-wise loc_dim is the point set of the union of the elements ---- *)
@@ -98,22 +107,6 @@ Definition env_of (g : geom) : envl :=
                                 (Z.min x0 (fst q), Z.max x1 (fst q), Z.min y0 (snd q), Z.max y1 (snd q))) t
                               (fst p, fst p, snd p, snd p))
   end.
-
-(* C01/PredSound.realizable, as a decision procedure *)
-Definition none4 (ii ib bi bb : Z) : bool := (ii =? -1) && (ib =? -1) && (bi =? -1) && (bb =? -1).
-Definition realizable_b (dA dB : Z) (eA eB : envl) (m : matrix) : bool :=
-  match m with
-  | [ii; ib; ie; bi; bb; be; ei; eb; ee] =>
-      (m_intersects_1 eA eB || none4 ii ib bi bb) &&
-      (m_covers_1 eA eB || ((0 <=? ei) || (0 <=? eb)) || none4 ii ib bi bb) &&
-      (m_covers_1 eB eA || ((0 <=? ie) || (0 <=? be)) || none4 ii ib bi bb) &&
-      (IP_isDimsCompatibleWithCovers.c_isDimsCompatibleWithCovers_2 dA dB || ((0 <=? ei) || (0 <=? eb))) &&
-      (IP_isDimsCompatibleWithCovers.c_isDimsCompatibleWithCovers_2 dB dA || ((0 <=? ie) || (0 <=? be))) &&
-      (negb ((dA =? 1) && (dB =? 1)) || (ii <=? 1))
-  | _ => false
-  end.
-Definition oracle_realizable (r : bnrule) (A B : geom) : bool :=
-  realizable_b (dim_real A) (dim_real B) (env_of A) (env_of B) (relate_oracle r A B).
 
 (* the value each named predicate must return (Lib/IM pattern sets on the oracle matrix, real dimensions) *)
 Definition named_values (dA dB : Z) (m : matrix) : list bool :=
